@@ -38,6 +38,10 @@ SKS = [
     dict(pre=[], effs=[9, 12], second_action=[5], pre2=[], effcond=0, effcond2=4, n_bounds="both", goal=[5]),  # conditional numeric effects
     dict(pre=[], effs=[10], second_action=[20], pre2=[], goal=[0]),      # forall effect whose CONDITION mentions the bound variable: reads every p(y)
     dict(pre=[], effs=[15], second_action=[20, 10], pre2=[], goal=[0]),
+    dict(pre=[], effs=[1], effcond=2, second_action=[15], pre2=[0], goal=[0]),    # the last writer of b wrote it through a CONDITIONAL effect; a2 reads b
+    dict(pre=[], effs=[5], effcond=0, second_action=[12], pre2=[5], n_bounds="both", goal=[0]),  # the same on a numeric fluent
+    dict(pre=[], effs=[12], second_action=[10], pre2=[], inv=[2], goal=[2]),      # QUANTIFIED invariant: a writes b, a2 writes p(x), nothing else links them
+    dict(pre=[], effs=[0], second_action=[15], pre2=[], inv=[2], goal=[1]),
 ]
 
 
